@@ -190,6 +190,20 @@ P = {
   note="Trusted: regex crate semantics, edit_distance; rustc MIR. Which words match, consecutive-only dedup versus 'none repeats' and tie order are value-level and declined.",
   technique="provenance/dominance + length-bound dataflow + two-way data/table agreement + format-template reassembly + finite evaluation of the cleaning predicate",
   ref="§4 C15"),
+ "C19": dict(
+  text="Signature agreement between the 33 #[no_mangle] extern C items and riti.h's prototypes (name, arity, every type under the cbindgen mapping) "
+       "and all published constants; an ownership/escape rule on the wrappers' MIR: functions returning a handle return Box::into_raw of a fresh "
+       "box, exactly the three free functions hand their parameter to the one helper that calls Box::from_raw under a null check, no other export "
+       "can reach from_raw / drop_in_place / ptr::read, a raw handle parameter is only null-tested or re-borrowed after the null assert; a pairing "
+       "table keyed by the public C symbols: each wrapper's resolved local callees must be exactly its paired Rust method, applied to its own handle "
+       "with its own parameters in order and under no extra condition; string accessors return CString::from_vec_unchecked(owned copy of that "
+       "value).into_raw(); riti_string_free reclaims under exactly the null test; every Config setter writes the field its getter reads; Suggestion's "
+       "fields are owned types; unsafe operations are in ffi.rs and within the enumerated set; no NUL in riti's own alphabet. Decides the ownership "
+       "*discipline*; not the absence of leaks over all call sequences.",
+  note="Trusted: rustc MIR; std Box/CString ownership semantics; cbindgen's type mapping as transcribed. A memory-error detector over call sequences is a "
+       "different technique family and is deliberately not used; aliasing of the `&mut *ptr` in update-engine is not decided.",
+  technique="signature/table agreement + ownership/escape rule + frozen pairing table over resolved callees + unsafe census",
+  ref="§4 C19"),
 }
 
 NA_REASON = "rule module not built yet in this round (see DESIGN.md §4 for the planned static rules)"
